@@ -853,6 +853,7 @@ func c17Ed25519(run *c17Run, G int, seeds [][]byte) {
 		ki  int
 		msg []byte
 		sig []byte
+		ctx []byte
 	}
 	var mu sync.Mutex
 	var blindSigs []made
@@ -861,6 +862,15 @@ func c17Ed25519(run *c17Run, G int, seeds [][]byte) {
 		msg := r.Bytes(r.IntN(60))
 		ki := gi % 2
 		k := keys[ki]
+		// half of the goroutines blind with a context of their own, 128..330 bytes long (blind || 0 || context then no
+		// longer fits whatever fixed-size scratch space an implementation might share)
+		ctx, wantB := ctx, k.wantB
+		if gi%4 >= 2 {
+			ctx = r.Bytes(128 + r.IntN(200))
+			A, _ := ref.EdDecode(k.pub)
+			wantB = ref.EdEncode(ref.EdMul(c15Scalar(blind, ctx), A))
+			c.Class("blinding_with_long_per_goroutine_contexts")
+		}
 		for j := 0; j < 4; j++ {
 			switch (j + gi/2) % 4 {
 			case 0:
@@ -894,7 +904,7 @@ func c17Ed25519(run *c17Run, G int, seeds [][]byte) {
 					up, err = ed25519.UnblindPublicKeyWithContext(bp, blind, ctx)
 				}
 				run.leave()
-				if err != nil || !bytes.Equal(bp, k.wantB) || !bytes.Equal(up, k.pub) {
+				if err != nil || !bytes.Equal(bp, wantB) || !bytes.Equal(up, k.pub) {
 					run.fail("Blind/Unblind differ from the sequential result")
 				} else {
 					c.Class("blind_results_ok")
@@ -903,19 +913,19 @@ func c17Ed25519(run *c17Run, G int, seeds [][]byte) {
 				run.enter()
 				sig := ed25519.BlindKeySignWithContext(k.priv, msg, blind, ctx)
 				run.leave()
-				if !stded.Verify(stded.PublicKey(k.wantB), msg, sig) {
+				if !stded.Verify(stded.PublicKey(wantB), msg, sig) {
 					run.fail("BlindKeySignWithContext produced an invalid signature")
 				} else {
 					c.Class("sign_results_ok")
 					mu.Lock()
-					blindSigs = append(blindSigs, made{ki, msg, sig})
+					blindSigs = append(blindSigs, made{ki, msg, sig, ctx})
 					mu.Unlock()
 				}
 			}
 		}
 	})
 	for _, m := range blindSigs {
-		if !bytes.Equal(ed25519.BlindKeySignWithContext(keys[m.ki].priv, m.msg, blind, ctx), m.sig) {
+		if !bytes.Equal(ed25519.BlindKeySignWithContext(keys[m.ki].priv, m.msg, blind, m.ctx), m.sig) {
 			run.fail("a blinded-key signature made while other goroutines were signing differs from the one a sequential call with the same arguments makes")
 			break
 		}
